@@ -154,6 +154,8 @@ def compare_replicas(pid, seed, tier, results, fatal, out):
             for si in range(n):
                 sa, sb = base['step_digests'][si], other['step_digests'][si]
                 ga, gb = base['step_argsigs'][si], other['step_argsigs'][si]
+                if sa is None or sb is None:
+                    continue        # that session failed in one replica at harness level (reported separately)
                 compared += min(len(sa), len(sb))
                 if sa == sb:
                     continue
